@@ -290,10 +290,18 @@ impl<'ctxt, R: ImportResolver, C: Cache> VirtualMachine<'ctxt, R, C> {
                     right,
                 } = split::split_ref(&r1.fields, &r2.fields);
 
+                // Empty optional fields aren't considered to be part of the checked value (they
+                // are typically left by a record contract with optional fields which was applied
+                // earlier): they don't count as extra fields.
+                let has_extra_fields = left.values().any(|field| !field.is_empty_optional());
+
                 match mode {
-                    MergeMode::Contract(_) if !r2.attrs.open && !left.is_empty() => {
-                        let fields: Vec<String> =
-                            left.keys().map(|field| format!("`{field}`")).collect();
+                    MergeMode::Contract(_) if !r2.attrs.open && has_extra_fields => {
+                        let fields: Vec<String> = left
+                            .iter()
+                            .filter(|(_, field)| !field.is_empty_optional())
+                            .map(|(field, _)| format!("`{field}`"))
+                            .collect();
                         let plural = if fields.len() == 1 { "" } else { "s" };
                         let fields_list = fields.join(", ");
 
